@@ -719,6 +719,11 @@ impl Client {
         let st = self.stage;
         let raw: Vec<u8> = match k {
             "Malformed" => return self.malformed(f["class"].as_str().unwrap_or("")),
+            // seeded random bytes (given in hex), then the client closes its end
+            "Fuzz" => {
+                let b = unhex(f["hex"].as_str().unwrap_or(""));
+                return Action::SendThenClose(self.seal(b));
+            }
             "Handshake" => {
                 let next = f["next"].as_str().unwrap_or("Login");
                 let n = match next {
